@@ -273,6 +273,20 @@ def dedicated_systems(rng):
         for i, f in enumerate(([0.3, 0.0, -h], [-0.2, 0.25, -h], [-0.15, -0.3, -h])):
             system.add(Sphere2Plane(plane, body, mu=0.6, r=0.0, B_r_CP=np.array(f), e_N=0.0, e_F=0.0, name=f"foot{i}"))
         return system
+    def typed_ball(gap, ints):
+        def build():
+            system = System()
+            z = 1 if ints else 1.0
+            q0 = np.array([0, 0, z]) if ints else np.array([0.0, 0.0, 1.0])
+            pm = PointMass(1.0, q0=q0, u0=np.array([0, 0, 0]) if ints else np.zeros(3), name="ball_typed")
+            system.add(pm, Sphere2Plane(system.origin, pm, mu=0.3, r=1.0 - gap, e_N=0.0, e_F=0.0, name="contact_typed"), Force(np.array([0.5, 0.0, -9.81]), pm, name="g_typed"))
+            return system
+        return build
+    # the initial state typed as integers (np.array([0, 0, 1])): an open contact (gap 0.5) stays open, a closed one (gap 0) closed
+    for gap in (0.5, 0.0):
+        for ints in (True, False):
+            out.append((typed_ball(gap, ints), [f"ball at height 1 with radius {1.0 - gap} (gap {gap}), initial state typed as {'integers' if ints else 'floats'}"], None))
+
     # three contacts on one body: the fixed point converges slowly; budgets below and above what it needs, with and without continue_with_unconverged
     for budget in (20, 150, 100000):
         for cwu in (False, True):
@@ -284,7 +298,8 @@ def dedicated_systems(rng):
 def residual_record(system, rid, loose=False):
     """loose: the assembly used the default solver tolerances (1e-6): only the equations of motion and the bilateral constraints are
     judged, with a threshold of 1e-3 relative to the force scale (a stale result is off by O(1))"""
-    t0, q0, u0 = system.t0, system.q0, system.u0
+    # the state as numbers (a user may have typed integers: np.array([0, 0, 1]))
+    t0, q0, u0 = system.t0, np.asarray(system.q0, dtype=float), np.asarray(system.u0, dtype=float)
     ud, la_g, la_gamma, la_c, la_N, la_F = system.u_dot0, system.la_g0, system.la_gamma0, system.la_c0, system.la_N0, system.la_F0
     M = system.M(t0, q0, format="csr")
     rhs = system.h(t0, q0, u0) + system.W_g(t0, q0, format="csr") @ la_g + system.W_gamma(t0, q0, format="csr") @ la_gamma \
